@@ -431,6 +431,10 @@ class TrickSpec(FnSpec):
         def kill(ex, a, k, n):
             pid, sig = a[0], a[1]
             p = pid.data
+            if getattr(self, "name", "") == "_stop_process":
+                # the watcher of this child turns the child's exit into a restart: it has to be disarmed BEFORE we make the
+                # child exit ourselves, or our own kill is taken for a spontaneous exit (one event, two restarts)
+                ex.oblige("kill[the child's watcher is stopped before the child is signalled]", z3.Implies(self.w0.some, self.g["wstopped"][self.w0.val.t]), kind="order")
             self.kills.append((p, sig))
             if ex.choose(2, "kill_process raises OSError (process already gone)") == 1:
                 # E11: ESRCH from killpg/getpgid means there is no such process any more
